@@ -230,7 +230,14 @@ def run(tier, seed, workers):
     all_texts = []
     seen = set()
     excluded = 0
-    for t in spec + alpha_texts + fz:
+    # directed texts: characters that input layers like to treat specially, at the very start,
+    # the very end and in the middle (byte order mark, NUL, zero-width and bidi marks, trailing blank lines)
+    special = ['\ufeff', '\x00', '\u200b', '\u200e', '\u2060', '\ufffe', '\xa0', '\x1a', '\x7f']
+    directed = []
+    for ch in special:
+        directed += [ch + '# Title\n', ch + 'para\n', '# T' + ch + '\n', 'a\n' + ch + '\n', 'x' + ch, ch]
+    directed += ['a\n\n', 'a\n\n\n', '```\ncode\n\n', '```\ncode\n\n\n', '    code\n\n', '> q\n\n', '- i\n\n\n', '\n\na', '\n']
+    for t in spec + directed + alpha_texts + fz:
         if t in seen:
             continue
         seen.add(t)
@@ -258,6 +265,7 @@ def run(tier, seed, workers):
     for ri in range(len(RENDERERS)):
         pool = list(spec_dom)
         rng.shuffle(pool)
+        pool = [t for t in directed if in_domain(t)] + pool      # the directed texts go through the CLI for every renderer
         extra = rng.sample(rest, min(len(rest), per_renderer * 40))
         pool = pool + extra
         for b in range(per_renderer):
